@@ -312,6 +312,40 @@ Fixpoint settle_loop (fuel : nat) (kinds : list kind) (prev : list (Z * list Z))
 
 Definition settle := settle_loop 8.
 
+(* ------------------------------------------------------------------ the incremental engine
+
+   The engine re-evaluates only the helper cells that are dirty (their record's group-by cells changed, or a
+   key they looked up gained or lost a summary row: lookup.py, _LookupRelation).  pass_d evaluates the records
+   whose id is in `dirty` and leaves the entries of the others alone; settle_trace runs the settle loop with one
+   dirty set per _bring_all_up_to_date (recorded from the running engine by the harness; the rounds are those of
+   the whole document, so a table may see rounds in which nothing of it is removed).  None: rows with an empty
+   group are left after the last recorded round (the engine would have made another one).
+   Summary_proofs.settle_trace_full: when the entries of the records that are not re-evaluated in the first
+   round are what an evaluation would give (clean_valid), settle_trace computes exactly what settle_loop does. *)
+Fixpoint pass_d (kinds : list kind) (dirty : list Z) (prev : list (Z * list Z)) (src : list srow)
+  (summ : list mrow) : list mrow * list (Z * list Z) :=
+  match src with
+  | [] => (summ, [])
+  | r :: t =>
+      let '(s1, h) := if mem_z (fst r) dirty then helper kinds (entry prev (fst r)) summ (snd r)
+                      else (summ, entry prev (fst r)) in
+      let '(s2, hs) := pass_d kinds dirty prev t s1 in
+      (s2, (fst r, h) :: hs)
+  end.
+
+Fixpoint settle_trace (kinds : list kind) (prev : list (Z * list Z)) (src : list srow) (summ : list mrow)
+  (dirties : list (list Z)) : option (list orow) :=
+  match dirties with
+  | [] => None
+  | d :: rest =>
+      let '(s1, hs) := pass_d kinds d prev src summ in
+      let rows := with_groups s1 hs in
+      match rest with
+      | [] => if forallb nonempty_group rows then Some rows else None
+      | _ => settle_trace kinds hs src (auto_remove rows) rest
+      end
+  end.
+
 (* ------------------------------------------------------------------ for the correspondence check *)
 
 Definition orow_eqb (a b : orow) : bool :=
@@ -324,9 +358,19 @@ Fixpoint orows_eqb (a b : list orow) : bool :=
   | _, _ => false
   end.
 
-(* case: ((kinds, prev, src, summ), expected rows) *)
-Definition check_case (c : (list kind * list (Z * list Z) * list srow * list mrow) * list orow) : bool :=
-  let '(kinds, prev, src, summ, expect) := c in
+(* case: ((kinds, dirty sets per round, prev, src, summ), expected rows) *)
+Definition check_case
+  (c : (list kind * list (list Z) * list (Z * list Z) * list srow * list mrow) * list orow) : bool :=
+  let '(kinds, dirties, prev, src, summ, expect) := c in
+  match settle_trace kinds prev src summ dirties with
+  | Some rows => orows_eqb rows expect
+  | None => false
+  end.
+
+(* the same with every helper cell re-evaluated in every round (settle_loop) *)
+Definition check_case_full
+  (c : (list kind * list (list Z) * list (Z * list Z) * list srow * list mrow) * list orow) : bool :=
+  let '(kinds, _, prev, src, summ, expect) := c in
   match settle kinds prev src summ with
   | Some rows => orows_eqb rows expect
   | None => false
